@@ -60,8 +60,9 @@ func v33Wire(payload []byte, m v33Mode) []byte {
 // the receiving side.
 func v33Decode(t testing.TB, p *vqsPair, payload []byte, m v33Mode) (out v33Out) {
 	wire := v33Wire(payload, m)
-	_, st := p.sendUni(t, wire, m.Cuts, true)
+	_, st, wait := p.sendUni(t, wire, m.Cuts, true)
 	qs := st.stream
+	defer wait()
 	defer qs.CloseRead()
 	func() {
 		defer func() {
@@ -247,7 +248,7 @@ func v33Name(rng *rand.Rand, pseudo bool) (string, string) {
 	case 4: // non-ASCII
 		base := v33RandString(rng, 1+rng.IntN(8), v33Token)
 		i := rng.IntN(len(base) + 1)
-		return base[:i] + v33Pick(rng, []string{"\x80", "\xff", "é", "ſ", "K", "\u212a"}) + base[i:], "nonascii"
+		return base[:i] + v33Pick(rng, []string{"\x80", "\xff", "\u00e9", "\u017f", "\u212a", "\xc0\xaf"}) + base[i:], "nonascii"
 	case 5: // printable but not a token
 		base := v33RandString(rng, 1+rng.IntN(8), v33Token)
 		i := 1 + rng.IntN(len(base))
@@ -358,7 +359,7 @@ func (l *v33List) expected(ctrlKept bool) []qpackref.Field {
 // v33Foreign writes a valid field section the way some other encoder might: any legal
 // spelling of every field (Huffman or not regardless of size, padded integers, name
 // references to any entry with the right name, literal names even when the table has them).
-func v33Foreign(rng *rand.Rand, bigPad bool) ([]byte, []qpackref.Field) {
+func v33Foreign(rng *rand.Rand, bigPad bool) ([]byte, []int) {
 	pad := func() int {
 		if bigPad && rng.IntN(3) == 0 {
 			return 9 + rng.IntN(4)
@@ -371,9 +372,12 @@ func v33Foreign(rng *rand.Rand, bigPad bool) ([]byte, []qpackref.Field) {
 	sign := false
 	var db uint64
 	b := qpackref.AppendPrefix(nil, 0, sign, db, 0)
-	var want []qpackref.Field
+	bounds := []int{len(b)} // offsets at which a representation starts, plus the end
 	np, nr := rng.IntN(4), rng.IntN(8)
 	for i := 0; i < np+nr; i++ {
+		if i > 0 {
+			bounds = append(bounds, len(b))
+		}
 		pseudo := i < np
 		never := rng.IntN(3) == 0
 		switch rng.IntN(3) {
@@ -383,7 +387,6 @@ func v33Foreign(rng *rand.Rand, bigPad bool) ([]byte, []qpackref.Field) {
 				idx = rng.IntN(99)
 			}
 			b = qpackref.AppendIndexed(b, true, uint64(idx), pad())
-			want = append(want, qpackref.Field{Name: qpackref.StaticTable[idx].Name, Value: qpackref.StaticTable[idx].Value})
 		case 1: // name reference (not necessarily the first entry with that name)
 			idx := rng.IntN(99)
 			for (qpackref.StaticTable[idx].Name[0] == ':') != pseudo {
@@ -391,7 +394,6 @@ func v33Foreign(rng *rand.Rand, bigPad bool) ([]byte, []qpackref.Field) {
 			}
 			v := v33Value(rng)
 			b = qpackref.AppendNameRef(b, never, true, uint64(idx), v, rng.IntN(2) == 0, pad(), pad())
-			want = append(want, qpackref.Field{Name: qpackref.StaticTable[idx].Name, Value: v, Never: never})
 		default:
 			n, _ := v33Name(rng, pseudo)
 			if rng.IntN(3) == 0 {
@@ -404,10 +406,12 @@ func v33Foreign(rng *rand.Rand, bigPad bool) ([]byte, []qpackref.Field) {
 			}
 			v := v33Value(rng)
 			b = qpackref.AppendLiteral(b, never, n, rng.IntN(2) == 0, v, rng.IntN(2) == 0, pad(), pad())
-			want = append(want, qpackref.Field{Name: n, Value: v, Never: never})
 		}
 	}
-	return b, want
+	if np+nr > 0 {
+		bounds = append(bounds, len(b))
+	}
+	return b, bounds
 }
 
 // v33Bad returns one representation (or prefix) of the named bad kind.
@@ -578,7 +582,7 @@ func v33Hostile(rng *rand.Rand, enc *qpackEncoder) (payload []byte, label string
 		return append(b, f[2:]...), "prefix-variant"
 	case s < 11: // one targeted defect inside (or at the end of) a valid section
 		kind := v33Pick(rng, v33BadKinds)
-		f, _ := v33Foreign(rng, false)
+		f, bounds := v33Foreign(rng, false)
 		switch kind {
 		case "string-oversized-name", "string-oversized-value":
 			over := uint64(1 + rng.IntN(3))
@@ -598,7 +602,6 @@ func v33Hostile(rng *rand.Rand, enc *qpackEncoder) (payload []byte, label string
 		// insert between two representations of f: walk f with the reference to find boundaries
 		cutAt := len(f)
 		if rng.IntN(2) == 0 {
-			bounds := v33Boundaries(f)
 			cutAt = v33Pick(rng, bounds)
 		}
 		out := append(append(append([]byte{}, f[:cutAt]...), bad...), f[cutAt:]...)
@@ -638,21 +641,6 @@ func v33Hostile(rng *rand.Rand, enc *qpackEncoder) (payload []byte, label string
 	}
 }
 
-// v33Boundaries returns the offsets at which representations of a valid section start (plus
-// its end), found by re-walking ever longer prefixes with the reference.
-func v33Boundaries(f []byte) []int {
-	out := []int{}
-	for i := 2; i <= len(f); i++ {
-		if r := qpackref.Decode(f[:i]); r.Accepted() {
-			out = append(out, i)
-		}
-	}
-	if len(out) == 0 {
-		out = append(out, len(f))
-	}
-	return out
-}
-
 func v33Mode4(rng *rand.Rand, payloadLen int) v33Mode {
 	var m v33Mode
 	wireLen := payloadLen + 2
@@ -678,6 +666,14 @@ func v33Mode4(rng *rand.Rand, payloadLen int) v33Mode {
 		m.Trailing = true
 	}
 	return m
+}
+
+func v33Ins(l []v33In) string {
+	var sb strings.Builder
+	for _, in := range l {
+		fmt.Fprintf(&sb, " {%q:%q never=%v}", in.Name, in.Value, in.Never)
+	}
+	return sb.String()
 }
 
 func v33Hex(b []byte) string {
@@ -785,7 +781,7 @@ func TestVerif_C33(t *testing.T) {
 		}
 		inner, outer := vqsBubble(t, func(t *testing.T) {
 			p := vqsNewPair(t)
-			_, st := p.sendUni(t, wire, nil, true)
+			_, st, _ := p.sendUni(t, wire, nil, true)
 			defer st.stream.CloseRead()
 			for _, x := range tcs {
 				fb, got, err := st.readPrefixedInt(x.n)
@@ -804,7 +800,7 @@ func TestVerif_C33(t *testing.T) {
 	// --- round trip ---
 	const batch = 100
 	var sampled int
-	r.CasesParallel("roundtrip", r.N(40, 1200), 8, func(c *verifrt.Case) {
+	r.CasesParallel("roundtrip", r.N(100, 600), 8, func(c *verifrt.Case) {
 		inner, outer := vqsBubble(t, func(t *testing.T) {
 			p := vqsNewPair(t)
 			for k := 0; k < batch; k++ {
@@ -924,7 +920,7 @@ func TestVerif_C33(t *testing.T) {
 				r.EvalBytes(kinds >= 2 || ref.HuffStrings > 0 || ref.MultiOctetInts > 0 || ref.Reject != "", got)
 				if c.Index == 0 && k < 40 && sampled < 2 && len(l.In) >= 3 && len(l.In) <= 5 && len(got) < 120 && l.Reject == "" {
 					sampled++
-					r.Sample(map[string]any{"stream": "roundtrip", "list": fmt.Sprintf("%q", l.In), "encoded": v33Hex(got), "decoded": v33Fields(out.fields)})
+					r.Sample(map[string]any{"stream": "roundtrip", "list": v33Ins(l.In), "encoded": v33Hex(got), "decoded": v33Fields(out.fields)})
 				}
 			}
 		})
@@ -933,7 +929,7 @@ func TestVerif_C33(t *testing.T) {
 
 	// --- hostile ---
 	var hsampled int
-	r.CasesParallel("hostile", r.N(150, 4000), 8, func(c *verifrt.Case) {
+	r.CasesParallel("hostile", r.N(400, 2400), 8, func(c *verifrt.Case) {
 		inner, outer := vqsBubble(t, func(t *testing.T) {
 			p := vqsNewPair(t)
 			for k := 0; k < batch; k++ {
@@ -1030,7 +1026,7 @@ func TestVerif_C33(t *testing.T) {
 	})
 
 	r.Require("ints_read_back", 10000)
-	r.Require("rt_lists", int64(r.N(40, 1200)*batch*9/10))
+	r.Require("rt_lists", int64(r.N(100, 600)*batch*9/10))
 	r.Require("rt_lines_indexed", 500)
 	r.Require("rt_lines_name_reference", 500)
 	r.Require("rt_lines_literal_name", 500)
@@ -1039,7 +1035,7 @@ func TestVerif_C33(t *testing.T) {
 	r.Require("rt_raw_strings", 500)
 	r.Require("rt_nonascii_names_skipped", 100)
 	r.Require("rt_trailing_frame_intact", 100)
-	r.Require("hostile_payloads", int64(r.N(150, 4000)*batch*9/10))
+	r.Require("hostile_payloads", int64(r.N(400, 2400)*batch*9/10))
 	for _, k := range []string{qpackref.RejRIC, qpackref.RejDynIndexed, qpackref.RejDynNameRef, qpackref.RejPostBaseIndexed, qpackref.RejPostBaseNameRef,
 		qpackref.RejStaticOOB, qpackref.RejStringOversized, qpackref.RejHuffman, qpackref.RejEmptyName, qpackref.RejPseudoAfterReg, qpackref.RejTruncated} {
 		r.Require("ref_reject_"+k, 50)
